@@ -96,10 +96,13 @@ def read_groundwater_table(
                     depth = df["Depth(mm)"].iloc[row]
                     z_gw.loc[date] = depth
 
-                # Interpolate daily groundwater depths
-                # (days before the first observation take the first observed depth, as in the
-                # "Constant" method; interpolate() alone leaves them undefined)
-                z_gw = z_gw.interpolate(limit_direction="both")
+                # Interpolate daily groundwater depths in time
+                # (observations outside the simulation period were appended above: keep the
+                # series in date order; days before the first / after the last observation take
+                # that observation's depth, as in the "Constant" method)
+                z_gw = z_gw.astype(float).sort_index()
+                z_gw = z_gw.interpolate(method="time", limit_direction="both")
+                z_gw = z_gw.loc[ClockStruct.time_span]
 
         # assign values to Paramstruct object
         ParamStruct.z_gw = z_gw.values
